@@ -38,7 +38,7 @@ F = ['sdc11073.mdib.providermdib.ProviderMdib._transaction_manager',
      'sdc11073.mdib.consumermdib.ConsumerMdib._can_accept_mdib_version',
      'sdc11073.mdib.containerbase.ContainerBase._update_from_other']
 STATE_KINDS = ['metric', 'two_metrics_two_mds', 'alert', 'component', 'operational', 'context_new', 'context_update',
-               'context_update_two_of_one_descriptor', 'set_location', 'waveform']
+               'context_update_two_of_one_descriptor', 'set_location', 'waveform', 'context_delete_through_context_transaction']
 DESCR_KINDS = ['update_alert_condition_source', 'update_alert_signal_condition_signaled', 'update_metric_descriptor_and_state',
                'create_metric', 'delete_leaf', 'delete_subtree', 'update_context_descriptor', 'create_channel_with_child',
                'create_two_children_of_one_parent', 'update_parent_then_create_child', 'delete_two_children_of_one_parent',
